@@ -548,6 +548,9 @@ const RELATIVE_REQUIRES: &[&str] = &[
     "./example/..",
     // a folder below the requiring file named like the folder a source/alias points to
     "./src/example",
+    // a sibling folder whose name starts with the name of the folder a source/alias points to
+    "../src2/example",
+    "./src2/example",
 ];
 
 fn source_requires(mode: &ModeCfg) -> Vec<&'static str> {
